@@ -153,12 +153,12 @@ def gen_cases(rng, tier, ops):
     names = [n for n in cm.RESTRICTED if n in POLES]
     if tier == 'quick':
         for n in names:
-            cases += pole_cases(rng, ops, n, [(), (1,), (2,), (0,)], limit=40)
-            cases += pole_cases(rng, ops, n, [(3,), (2, 2)], limit=40)
-        for _ in range(1200):
+            cases += pole_cases(rng, ops, n, [(), (1,), (2,), (0,)], limit=120)
+            cases += pole_cases(rng, ops, n, [(3,), (2, 2)], limit=120)
+        for _ in range(4000):
             n = rng.choice(SAMPLED)
             cases.append(c01.gen_case(rng, n, ops, deriv=(rng.random() < 0.5 and n in cm.DERIV_OPS), special=0.5))
-        for _ in range(400):      # total functions with derivatives: formulas must stay finite
+        for _ in range(1500):      # total functions with derivatives: formulas must stay finite
             n = rng.choice([x for x in cm.DERIV_OPS if x not in POLES])
             cases.append(c01.gen_case(rng, n, ops, deriv=True, special=0.4))
         return cases
@@ -239,7 +239,7 @@ def run(ctx):
             '{undefined, boundary, interior} values to shapes (), (1,), (2,), (3,), (2,2), (0,) x {no mask, poles '
             'masked, first element masked} x {without, with derivatives} x scalar/array layout of the other '
             'operand; plus seeded samples of pair-dependent poles (parallel vectors, singular matrices) and of '
-            'total functions with derivatives; quick samples 80 layouts per operation, thorough enumerates all; '
+            'total functions with derivatives; quick samples 240 layouts per operation, thorough enumerates all; '
             'non-trivial = result partially masked' % len([n for n in cm.RESTRICTED if n in POLES]))
     return c01.run(ctx, prop=PROP, check_values=True, gen=gen_cases, rule=rule)
 
